@@ -10,8 +10,8 @@ def run(ctx):
     if exe is None:
         raise vlib.CheckError("harness build failed:\n" + log[-3000:])
     big = ctx.tier == "thorough"
-    args = ["-seed", ctx.seed, "-main", 9000 if big else 500, "-malformed", 4000 if big else 220,
-            "-nilchange", 600 if big else 60, "-limit", 20000 if big else 1500,
+    args = ["-seed", ctx.seed, "-main", 6000 if big else 400, "-malformed", 2500 if big else 180,
+            "-nilchange", 400 if big else 60, "-limit", 20000 if big else 1000,
             "-corpus", os.path.join(vlib.ROOT, "corpus", "c13_limit.tsv")]
     res = vlib.run_pipeline(ctx, exe, args, mcheck, timeout=1500)
     cross_check_in_coq(ctx, mcheck, 400 if big else 120)
